@@ -14,7 +14,7 @@ META = {
                                                       '_run_equal_interval', 'natural_breaks', '_run_natural_break', '_run_jenks', '_run_numpy_jenks_matrices')],
     'bounds': {'quick': 'reclassify: every bin count 1..6, bins symbolic strictly ascending, value symbolic (NaN/+-inf allowed), new values symbolic; binary: <=3 listed values, '
                         'cells NaN/inf/finite, float and int dtypes; equal_interval / quantile: rasters of 3 and 4 cells (NaN allowed), k in {2,3}; natural_breaks: 3 and 4 cells, k=2; NOT symbolic: equal_interval on 144 small integer ranges x k in {2,3,5,7} executed with real float arithmetic (enumeration of the np.arange overshoot / last-cut rounding cases that exact reals cannot reach)',
-               'thorough': 'reclassify up to 8 bins; equal_interval / quantile 5 cells k in {2,3,4}; natural_breaks 5 cells k in {2,3}'},
+               'thorough': 'reclassify up to 8 bins; equal_interval / quantile 5 cells k in {2,3,4}; natural_breaks 5 cells k in {2,3} (class range / order claims; the optimality claim is decided up to 4 cells, k = 2 - five cells come back unknown from z3 after 30 s per query)'},
     'stubs': ['numba.jit = identity', 'np.percentile = sorting network + linear interpolation', 'np.unique / sort = forking insertion sort', 'print / warnings = no-op'],
     'outside': ['single-precision rounding of break values (the guards bins[-1] = max exist for floats; in exact arithmetic they are not needed, so a mutant deleting them is invisible here)',
                 'np.arange overshoot branch for symbolic inputs (dead under exact arithmetic; executed only by the concrete landmark sweep, which is enumeration and not a solver verdict)', 'natural_breaks sampling branch (num_sample < size)', 'rasters with fewer than two distinct finite values for equal_interval'],
@@ -58,7 +58,7 @@ def jobs(tier, seed):
     for shp in ([(1, 3), (2, 2)] if tier == 'quick' else [(1, 3), (2, 2), (1, 5)]):
         for k in ((2,) if tier == 'quick' else (2, 3)):
             out.append({'name': 'natural_breaks-%dx%d-k%d' % (shp[0], shp[1], k), 'kind': 'natural_breaks', 'shape': list(shp), 'k': k,
-                        'optimality': tier != 'quick' or shp == (1, 3)})
+                        'optimality': (tier != 'quick' and shp[0] * shp[1] <= 4 and k == 2) or shp == (1, 3)})
     return out
 
 
@@ -283,5 +283,5 @@ def body_datadriven(ctx, job):
                 for c in range(k):
                     cls = ite(And(rank[i] >= bounds[c], rank[i] < bounds[c + 1]), c, cls)
                 alt.append(cls)
-            ctx.check('partition-minimises-within-class-ssd', Implies(allfin, ctx.le(got, ssd(alt), TOL64)),
+            ctx.check('partition-minimises-within-class-ssd', Implies(And(allfin, alldistinct) if n >= 5 else allfin, ctx.le(got, ssd(alt), TOL64)),
                       info=lambda m, cuts=cuts: {'values': [ctx.ev(m, v) for v in dl], 'classes': [ctx.ev(m, o) for o in ol], 'better_cuts': list(cuts)})
